@@ -326,10 +326,10 @@ func fwdInProcess(srv *http.Server, c map[string]any) (*fwdAnswer, any, error) {
 	}
 
 	// what net/http made of the request line; the model takes these as the "actual request"
-	if req.Method != getStr(c, "method") || req.Host != getStr(c, "host") ||
+	if req.Method != getStr(c, "method") || req.Host != getStr(c, "host") || req.URL.RawPath != getStr(c, "raw_path") ||
 		req.URL.EscapedPath() != getStr(c, "esc_path") || req.URL.RawQuery != getStr(c, "raw_query") {
-		return nil, nil, fmt.Errorf("precondition: net/http parsed method=%q host=%q path=%q query=%q",
-			req.Method, req.Host, req.URL.EscapedPath(), req.URL.RawQuery)
+		return nil, nil, fmt.Errorf("precondition: net/http parsed method=%q host=%q rawpath=%q path=%q query=%q",
+			req.Method, req.Host, req.URL.RawPath, req.URL.EscapedPath(), req.URL.RawQuery)
 	}
 
 	req.RemoteAddr = getStr(c, "remote")
@@ -644,19 +644,26 @@ func fwdTrust(c map[string]any) (any, error) {
 	return map[string]any{"trusted": "partly", "kept": kept}, nil
 }
 
-// what the real net/url makes of X-Forwarded-Uri values (the model treats this function as a parameter)
+// what the real net/url makes of X-Forwarded-Uri values (url.Parse) and of request targets (url.ParseRequestURI, as
+// the net/http request reader does): RawPath, EscapedPath(), RawQuery. The model treats net/url as a parameter;
+// heimdall's own treatment of these parts (escapedPath, RawQuery as received) is modelled.
 func fwdURI(c map[string]any) (any, error) {
 	res := [][]any{}
+	parse := url.Parse
+
+	if getBool(c, "request_target") {
+		parse = url.ParseRequestURI
+	}
 
 	for _, v := range getStrs(c, "vals") {
-		u, err := url.Parse(v)
+		u, err := parse(v)
 		if err != nil {
-			res = append(res, []any{v, false, "", ""})
+			res = append(res, []any{v, false, "", "", ""})
 
 			continue
 		}
 
-		res = append(res, []any{v, true, u.EscapedPath(), u.Query().Encode()})
+		res = append(res, []any{v, true, u.RawPath, u.EscapedPath(), u.RawQuery})
 	}
 
 	return res, nil
